@@ -15,3 +15,97 @@ def main : IO Unit := do
     IO.println s!"lv {x} {y} {b l.valid} {b l.is_defined} {b l.is_undefined} {b l.op_to_bool}"
   for i in [0, 1, 7, 8, 255, 33554431, 33554432, 33554433, 4294967295, 4294967296, 18446744073709551615] do
     IO.println s!"ids {i} {Src.IdSet.IdSetDense_u64_22.chunk_id i} {Src.IdSet.IdSetDense_u64_22.offset i} {Src.IdSet.IdSetDense_u64_22.bitmask i}"
+  -- ---- phase 2 ----
+  let cid : List Int := [0, 3, -3, 7, -9]
+  let obj (id : Int) : Src.Object.OSMObject := ⟨⟨⟨⟨⟩, 40, 1, 0, 0, 0⟩⟩, id, false, 0, ⟨0⟩, 0, 0⟩
+  for n in List.range (15 * 15 * 15) do
+    let c := [n % 15, (n / 15) % 15, n / 225]
+    let mut co : Src.CheckOrder.CheckOrder := ⟨⟨⟩, 0, 0, 0, false, false, false⟩
+    let mut line := "co"
+    let mut stop := false
+    for ck in c do
+      if !stop then
+        let kind := ck / 5
+        let id := cid[ck % 5]!
+        let r := if kind == 0 then Src.CheckOrder.CheckOrder.node co ⟨obj id, ⟨2147483647, 2147483647⟩⟩
+                 else if kind == 1 then Src.CheckOrder.CheckOrder.way co ⟨obj id⟩
+                 else Src.CheckOrder.CheckOrder.relation co ⟨obj id⟩
+        let (thrown, s') := match r with
+          | .normal s _ => (0, s)
+          | .thrown _ s => (1, s)
+          | .nofuel => (2, co)
+        co := s'
+        line := line ++ s!" {kind}:{id}:{thrown}:{co.m_max_node_id},{co.m_max_way_id},{co.m_max_relation_id},{b co.m_has_node}{b co.m_has_way}{b co.m_has_relation}"
+        if thrown != 0 then stop := true
+    IO.println line
+  let val {σ : Type} (o : Osmium.CxxSem.Outcome σ Int) (dflt : σ) : Int × σ := match o with
+    | .normal s r => (r, s)
+    | _ => (-99999, dflt)
+  let mut e64 : Src.Delta.DeltaEncode_i64_i64 := ⟨0⟩
+  let mut d64 : Src.Delta.DeltaDecode_i64_i64 := ⟨0⟩
+  for v in ([0, 5, -5, 0, 9223372036854775807, 0, -9223372036854775807, -1, -9223372036854775808, -4611686018427387904, 4611686018427387903] : List Int) do
+    let (d, e') := val (Src.Delta.DeltaEncode_i64_i64.update e64 v) e64
+    e64 := e'
+    let (x, d') := val (Src.Delta.DeltaDecode_i64_i64.update d64 d) d64
+    d64 := d'
+    IO.println s!"de64 {v} {d} {e64.m_value} {x}"
+  let mut e32 : Src.Delta.DeltaEncode_u32_i32 := ⟨0⟩
+  let mut e3264 : Src.Delta.DeltaEncode_u32_i64 := ⟨0⟩
+  let mut ei32 : Src.Delta.DeltaEncode_i32_i32 := ⟨0⟩
+  for v in ([0, 1, 2147483647, 0, 5, 2147483647, 2147483646, 7] : List Int) do
+    let (a, s1) := val (Src.Delta.DeltaEncode_u32_i32.update e32 v) e32
+    let (c, s2) := val (Src.Delta.DeltaEncode_u32_i64.update e3264 v) e3264
+    let (d, s3) := val (Src.Delta.DeltaEncode_i32_i32.update ei32 v) ei32
+    e32 := s1; e3264 := s2; ei32 := s3
+    IO.println s!"de32 {v} {a} {c} {d}"
+  for v in ([4294967295, 0, 4294967295, 2147483648, 1] : List Int) do
+    let (c, s2) := val (Src.Delta.DeltaEncode_u32_i64.update e3264 v) e3264
+    e3264 := s2
+    IO.println s!"deu {v} {c}"
+  -- Buffer(capacity, yes): reserve n, commit, reserve m (reserve_space assembled from its translated pieces)
+  let reserve (s : Src.Buffer.Buffer) (n : Int) : Src.Buffer.Buffer :=
+    let s1 := if Src.Buffer.reserve_space_cond_full s n && Src.Buffer.reserve_space_cond_still_full s n then
+        match Src.Buffer.reserve_space_loop_double 64 s n (Src.Buffer.reserve_space_new_capacity s) with
+        | some nc => if s.m_capacity < Src.Buffer.Buffer.calculate_capacity nc then { s with m_capacity := Src.Buffer.Buffer.calculate_capacity nc } else s
+        | none => { s with m_capacity := -1 }
+      else s
+    { s1 with m_written := s1.m_written + n }
+  let st {ρ : Type} (o : Osmium.CxxSem.Outcome Src.Buffer.Buffer ρ) (dflt : Src.Buffer.Buffer) : Src.Buffer.Buffer := match o with
+    | .normal s _ => s
+    | _ => dflt
+  for c in ([64, 100, 1000] : List Int) do
+    for n in ([8, 24, 56, 64, 72, 200, 1000, 5000, 100000] : List Int) do
+      for m in ([8, 24, 56, 64, 72, 200, 1000, 5000, 100000] : List Int) do
+        let b0 : Src.Buffer.Buffer := ⟨Src.Buffer.Buffer.calculate_capacity c, 0, 0, 1⟩
+        let b1 := reserve b0 n
+        let (r1, b2) := val (Src.Buffer.Buffer.commit b1) b1
+        let b3 := reserve b2 m
+        let b4 := st (Src.Buffer.Buffer.rollback b3) b3
+        let (r2, b5) := val (Src.Buffer.Buffer.clear b4) b4
+        IO.println s!"buf {c} {n} {m} : {r1} {Src.Buffer.Buffer.capacity b3} {Src.Buffer.Buffer.written b3} {Src.Buffer.Buffer.committed b3} {b (Src.Buffer.Buffer.is_aligned b3)} {b4.m_written} {b4.m_committed} {r2} {b5.m_written} {b5.m_committed}"
+  for c in List.range 256 do
+    let x : Int := (c : Int) - 128
+    IO.println s!"cit {x} {Src.ItemType.char_to_item_type x}"
+  for t in List.range 300 do
+    IO.println s!"itc {t} {Src.ItemType.item_type_to_char t}"
+  for i in List.range 3 do
+    IO.println s!"nwr {i} {Src.ItemType.nwr_index_to_item_type i} {Src.ItemType.item_type_to_nwr_index (Src.ItemType.nwr_index_to_item_type i)}"
+  let mids : List Int := [-2, 0, 5]
+  let nums : List Int := [0, 1, 18446744073709551615]
+  let poss : List Int := [0, 9]
+  for a1 in mids do for a2 in nums do for a3 in poss do for b1 in mids do for b2 in nums do for b3 in poss do
+    let a : Src.MembersDatabase.MembersDatabaseCommon.element := ⟨a1, a2, a3, ⟨0⟩⟩
+    let e : Src.MembersDatabase.MembersDatabaseCommon.element := ⟨b1, b2, b3, ⟨0⟩⟩
+    IO.println s!"el {a1} {a2} {a3} {b1} {b2} {b3} {b (a.op_lt_element e)} {b a.is_removed}"
+  let ks : List Int := [0, 1, 4294967295, 4294967296, 4294967297, 18446744073709551615]
+  for k1 in ks do for v1 in ks do for k2 in ks do for v2 in ks do
+    let a := Src.RelationsMap.flat_map_u64_u32_u64_u32.kv_pair.ctor_u64_u64 k1 v1
+    let e := Src.RelationsMap.flat_map_u64_u32_u64_u32.kv_pair.ctor_u64_u64 k2 v2
+    IO.println s!"kv {k1} {v1} {k2} {v2} {a.key} {a.value} {b (a.op_lt_kv_pair e)} {b (a.op_eq_kv_pair e)}"
+  let mut o : Src.Object.OSMObject := obj 1
+  for v in ([0, 1, 2147483647, 2147483648, 2147483649, 4294967295] : List Int) do
+    for d in [false, true] do
+      o := match Src.Object.OSMObject.set_deleted o d with | .normal s _ => s | _ => o
+      o := match Src.Object.OSMObject.set_version_u32 o v with | .normal s _ => s | _ => o
+      IO.println s!"sv {v} {b d} {Src.Object.OSMObject.version o} {b (Src.Object.OSMObject.deleted o)}"
+
